@@ -12,6 +12,7 @@ def run(facts, tier):
         ("allocate/deallocate pairing", c19_rules.alloc_pairing, 30, "deallocate sizes equal allocate sizes per owning field / local; deleters use their constructed count"),
         ("assignment safety", c19_rules.assign_safety, 8, "copy assignment reads the source before releasing owned members, or guards self-assignment"),
         ("cache invalidation", quantile_rules.cache_invalidation, 9, "assignments and mutators invalidate the cached sorted view (a moved/copied-into sketch must not keep a view of its old contents)"),
+        ("raw slot flag", c19_rules.raw_slot_flag, 5, "var_opt: whenever data_ receives fresh raw memory the all-slots-constructed flag is false on return"),
         ("foreign memory", c19_rules.foreign_memory, 0, "no new/delete/malloc outside the user's allocator (reviewed exception: CPC compressor tables)"),
         ("dangling references", c19_rules.dangling_returns, 50, "no function returns a reference to a local object"),
         ("tautologies", lambda fa: generic_lints.tautologies(fa, None), 2, "no comparison / assignment / min-max with two identical operands, no if-else with identical arms"),
